@@ -317,6 +317,10 @@ func (db *DB) OpenTransaction() (*Transaction, error) {
 		if _, err := db.rotateMem(0, true); err != nil {
 			return nil, err
 		}
+	} else if err := db.compTriggerWait(db.mcompCmdC); err != nil {
+		// Wait for pending memdb compaction: the frozen memdb must be
+		// flushed before the transaction records its sequence number.
+		return nil, err
 	}
 
 	// Wait compaction when certain threshold reached.
